@@ -90,12 +90,13 @@ def search(ctx):
 
 SPEC = {
     "id": "C01",
-    "gens": ["HlslGenTables"],
+    "gens": ["HlslGenTables", "HlslIntrinsicTables"],
     "lean_modules": ["RsslVerif.Thm.C01"],
     "theorems": [T + n for n in [
-        "op_table_is_identity", "op_table_injective", "exporter_shape_as_modelled",
-        "literal_value_preserved", "literal_int32_min_panics", "literal_total_except_min",
-        "gen_sem_expr", "gen_sem_expr_plain", "gen_sem_stmt", "gen_sem_stmts", "gen_sem_func", "gen_sem_program",
+        "op_table_is_identity", "op_table_injective", "intrinsic_table_is_identity", "exporter_shape_as_modelled",
+        "literal_value_preserved", "literal_total", "literal_int32_min",
+        "gen_sem_expr", "gen_sem_expr_plain", "gen_sem_stmt", "gen_sem_stmts", "scope_block_push_is_append",
+        "gen_sem_func", "gen_sem_program",
         "cast_to_literal_dropped_changes_meaning"]],
     "harness": "c01",
     "nontrivial": nontrivial,
